@@ -393,6 +393,10 @@ func rulesC09(c *Ctx) {
 		if len(ev) == 0 && len(fo) == 0 {
 			continue
 		}
+		if len(ev) == 0 || len(fo) == 0 {
+			c.Unk("C09.signtest", key, 0, "the sign test of one of the two was not recognised in its present form: nothing to compare")
+			continue
+		}
 		if len(only) > 0 {
 			c.Bad("C09.signtest", key, 0, "a negative integer against an unsigned is diverted for "+strings.Join(only, ", ")+": with both operands bound at Reduce time the fold and the evaluation take different arms (e.g. -1 = 18446744073709551615)")
 		} else {
